@@ -393,6 +393,17 @@ def _partial( e, env ):
         return None
 
 
+def _fold_len( e, envf, Ln ):
+    """fold() with len( self ) = Ln"""
+    class LenSub( ast.NodeTransformer ):
+        def visit_Call( self, node ):
+            if is_call_to( node, 'len' ) and node.args and dotted( node.args[0] ) == 'self':
+                return ast.copy_location( ast.Constant( value=Ln ), node )
+            return self.generic_visit( node )
+    import copy
+    return fold( LenSub().visit( copy.deepcopy( e )), envf )
+
+
 def is_attribute_receiver( expr, ld ):
     """expr denotes an Attribute object: bound from lookup( ... ) or self.attribute[ ... ] (directly or via a local)"""
     def base_pred( v ):
@@ -660,15 +671,46 @@ def d_validate( ctx ):
     # ---- Attribute._validate_key: slice store cannot truncate or extend
     dsrc = ctx.src( DEVICE )
     vk = dsrc.get( 'Attribute._validate_key' )
-    conds = [ n for n in ast.walk( vk ) if isinstance( n, ast.If ) and isinstance( n.test, ast.BoolOp ) and isinstance( n.test.op, ast.And ) ]
-    good = False
-    for c in conds:
-        t = [ txt( v ) for v in c.test.values ]
-        if 'stride==1' in t and 'start<stop' in t and 'stop<=len(self)' in t and any( x.startswith( 'key.stopin' ) for x in t ):
-            good = True
-            res.ok( dsrc, c, '_validate_key: ' + norm_text( c.test ))
-    if not good:
-        res.bad( dsrc, vk, '_validate_key slice condition', 'slices must be stride 1, non-empty, within len( self ) and not clipped (key.stop in (stop, None))' )
+    # decision-table check of the slice acceptance condition: evaluate it over a finite domain of ( tag length, requested slice ) and
+    # compare with the specification "stride 1, non-empty, inside the tag, and the requested stop was not clipped by slice.indices()"
+    unpack = [ ( n, m ) for n, m in pfind( vk, '( _a, _b, _c ) = key.indices( len( self ))' ) ]
+    accept_if = None
+    for i in ast.walk( vk ):
+        if isinstance( i, ast.If ) and any( pmatch( b_, 'return slice' ) for b_ in i.body ) and unpack:
+            accept_if = i
+    if not unpack or accept_if is None:
+        res.bad( dsrc, vk, '_validate_key slice branch', 'slice keys must be normalised with key.indices( len( self )) and accepted only under an explicit condition' )
+    else:
+        na, nb, nc = ( unpack[0][1][k].id for k in ( '_a', '_b', '_c' ))
+        cells = wrong = 0
+        first_bad = None
+        for Ln in range( 0, 5 ):
+            for a_ in ( None, -1, 0, 1, 2, 3, 5 ):
+                for b_ in ( None, -1, 0, 1, 2, 3, 4, 5, 7 ):
+                    for c_ in ( None, 1, 2, -1 ):
+                        st_, sp_, sd_ = slice( a_, b_, c_ ).indices( Ln )
+                        env = { na: st_, nb: sp_, nc: sd_, 'key.stop': b_, 'key.start': a_, 'key.step': c_ }
+                        def envf( d, env=env, Ln=Ln ):
+                            if d in env: return env[d]
+                            return NoFold
+                        class _E( dict ): pass
+                        try:
+                            got = bool( _fold_len( accept_if.test, envf, Ln ))
+                        except NoFold as exc:
+                            raise AnalysisError( '_validate_key condition outside the modelled subset: %s' % exc )
+                        want = sd_ == 1 and 0 <= st_ < sp_ <= Ln and ( b_ is None or b_ == sp_ )
+                        cells += 1
+                        if got != want:
+                            wrong += 1
+                            if first_bad is None:
+                                first_bad = ( Ln, a_, b_, c_, got, want )
+        res.cells += cells
+        if wrong == 0:
+            res.ok( dsrc, accept_if, '_validate_key accepts exactly stride-1, non-empty, in-range, unclipped slices (%d cells): %s' % ( cells, norm_text( accept_if.test )))
+        else:
+            Ln, a_, b_, c_, got, want = first_bad
+            res.bad( dsrc, accept_if, accept_if.test, 'slice acceptance differs from "stride 1, non-empty, within the tag, not clipped" on %d of %d cells, e.g. tag length %d, '
+                     'key [%s:%s:%s] is %s (a clipped slice silently truncates a read / lets a write extend the tag)' % ( wrong, cells, Ln, a_, b_, c_, 'accepted' if got else 'refused' ))
     si = dsrc.get( 'Attribute.__setitem__' ); gi = dsrc.get( 'Attribute.__getitem__' )
     for f in ( si, gi ):
         calls = [ n for n in ast.walk( f ) if is_call_to( n, 'self._validate_key' ) ]
@@ -1727,4 +1769,50 @@ def k_forwards( ctx ):
         res.ok( dsrc, fc, 'forward_close matches forwards entries by the peer ( host, port ) prefix' )
     else:
         res.bad( dsrc, fc, 'forward_close', 'closing must find the connection by the same peer address prefix it was stored under' )
+    return res
+
+
+# ---------------------------------------------------------------------------------------- C03: T-ATTRKEYS
+
+NUMERIC_KEYS = ( 'misc.natural', 'natural', 'int', 'cpppo.misc.natural' )
+
+
+@rule( 'T-ATTRKEYS', props=( 'C03', ), floor=2 )
+def t_attrkeys( ctx ):
+    """attribute ids are numeric strings: every ordering over an `.attribute` mapping uses a numeric key, and a new tag gets the id max+1 stored as str( id )"""
+    res = Result( 'T-ATTRKEYS' )
+    n = 0
+    for rel in ( LOGIX, DEVICE, MAIN, UCMM ):
+        src = ctx.src( rel )
+        for c in ast.walk( src.tree ):
+            if not isinstance( c, ast.Call ):
+                continue
+            cn = call_name( c )
+            if cn in ( 'max', 'min', 'sorted' ) and c.args:
+                a = c.args[0]
+                base = a.func.value if isinstance( a, ast.Call ) and isinstance( a.func, ast.Attribute ) and a.func.attr in ( 'keys', ) else a
+                if isinstance( base, ast.Attribute ) and base.attr == 'attribute':
+                    n += 1
+                    key = [ k.value for k in c.keywords if k.arg == 'key' ]
+                    if key and ( dotted( key[0] ) in NUMERIC_KEYS ):
+                        res.ok( src, c, '%s( %s, key=%s ): numeric order of attribute ids' % ( cn, txt( a ), dotted( key[0] )))
+                    else:
+                        res.bad( src, c, c, 'attribute ids are stored as strings: ordering them without a numeric key puts \'9\' after \'10\', so the 11th auto-allocated tag re-uses an id and aliases another tag\'s storage' )
+                elif isinstance( base, ( ast.GeneratorExp, ast.ListComp )) and any( isinstance( g_.iter, ast.Attribute ) and g_.iter.attr == 'attribute' for g_ in base.generators ):
+                    n += 1
+                    if is_call_to( base.elt, 'int' ):
+                        res.ok( src, c, '%s over int( id ) of attribute ids' % cn )
+                    else:
+                        res.bad( src, c, c, 'attribute ids must be compared numerically' )
+    src = ctx.src( LOGIX )
+    st = src.get( 'setup_tag' )
+    inc = [ s for s in ast.walk( st ) if isinstance( s, ast.AugAssign ) and dotted( s.target ) == 'att' and isinstance( s.op, ast.Add ) and try_fold( s.value ) == 1 ]
+    store = pfind( st, 'instance.attribute[str( att )]' )
+    if inc and store:
+        res.ok( src, inc[0], 'new tag: att = largest id + 1, stored at instance.attribute[str( att )]' )
+        n += 1
+    else:
+        res.bad( src, st, 'setup_tag allocation', 'a new tag must be allocated the next free attribute id (largest + 1) and stored under str( id )' )
+    if n < 2:
+        raise AnalysisError( 'T-ATTRKEYS: attribute id ordering sites not found' )
     return res
